@@ -24,6 +24,7 @@
 #include "ExchComp.h"
 #include "Surface.h"
 #include "SurfaceComp.h"
+#include "SurfaceCharge.h"
 #include "Use.h"
 #include <sstream>
 #include <set>
@@ -275,6 +276,49 @@ public:
           << (u->dissolve_only ? 1 : 0) << " " << (c->Get_add_formula().size() ? 1 : 0) << " " << hexd(resid[k]) << " " << hexd(rdel[k])
           << " " << hexd(din[k]) << " " << hexd(mafter[k]) << " " << hexd(dafter[k]) << " " << rm_after << "\n";
       }
+      // --- ineq(1) on the crafted state: the rows it hands to cl1 are observed through cl1's answer (x, residuals of all
+      //     rows, back_eq); only for the engine paths the row model covers
+      if (rd < 12 && !e->pitzer_model && !e->sit_model && e->use.Get_gas_phase_ptr() == NULL && !e->negative_concentrations) {
+        for (int i = 0; i < e->count_unknowns; i++) { e->x[i]->moles = sv_m[i]; e->x[i]->f = sv_f[i]; e->delta[i] = sv_d[i]; e->x[i]->delta = sv_xd[i]; }
+        std::copy(sv_arr.begin(), sv_arr.end(), e->my_array.begin());
+        for (size_t k = 0; k < idx.size(); k++) { e->x[idx[k]]->f = fs[k]; e->x[idx[k]]->moles = ms[k]; }
+        e->residuals();
+        e->remove_unstable_phases = FALSE;
+        int ret = e->ineq(1);
+        int n = e->count_unknowns;
+        size_t mr = e->max_row_count;
+        o << "PQ " << rd << " " << ret << " " << n << " " << e->iterations << " " << e->aqueous_only << " " << e->equi_delay << " "
+          << hexd(e->pp_scale) << " 1 " << hexd(e->MIN_RELATED_SURFACE) << " " << hexd(e->MIN_TOTAL_SS) << " " << (e->mass_water_switch ? 1 : 0)
+          << " " << (e->mass_oxygen_unknown ? (int)e->mass_oxygen_unknown->number : 999999) << " "
+          << (e->mass_hydrogen_unknown ? (int)e->mass_hydrogen_unknown->number : 999999) << " "
+          << ((e->use.Get_exchange_ptr() != NULL && (e->use.Get_exchange_ptr()->Get_related_phases() || e->use.Get_exchange_ptr()->Get_related_rate())) ? 1 : 0)
+          << " " << mr << " " << hexd(e->ineq_tol) << "\n";
+        for (int i = 0; i < n; i++) {
+          class unknown* u = e->x[i];
+          double ini = 0, grams = 0; int addf = 0, force = 0, phin = 1, related = 0;
+          if (u->type == PP) {
+            cxxPPassemblageComp* c = (cxxPPassemblageComp*)u->pp_assemblage_comp_ptr;
+            ini = c->Get_initial_moles(); addf = c->Get_add_formula().size() ? 1 : 0; force = c->Get_force_equality() ? 1 : 0;
+          }
+          if (u->type == PP || u->type == SS_MOLES) phin = (u->phase->in != FALSE) ? 1 : 0;
+          if (u->type >= SURFACE_CB && u->type <= SURFACE_CB2) {
+            cxxSurfaceCharge* ch = e->use.Get_surface_ptr()->Find_charge(u->surface_charge);
+            grams = ch ? ch->Get_grams() : 0;
+          }
+          if ((u->type == SURFACE || u->type == EXCH) && u->phase_unknown != NULL) related = 1;
+          if (u->type >= SURFACE_CB && u->type <= SURFACE_CB2 && i > 0 && e->x[i - 1]->phase_unknown != NULL) related = 1;
+          o << "PQU " << rd << " " << i << " " << u->type << " " << hexd(u->moles) << " " << hexd(u->f) << " " << hexd(ini) << " "
+            << hexd(grams) << " " << u->iteration << " " << phin << " " << (u->dissolve_only ? 1 : 0) << " " << addf << " " << force
+            << " " << (u->ss_in ? 1 : 0) << " " << related << "\n";
+          o << "PQM " << rd << " " << i;
+          for (int j = 0; j <= n; j++) o << " " << hexd(e->my_array[(size_t)i * (n + 1) + j]);
+          o << "\n";
+        }
+        o << "PQN " << rd; for (int i = 0; i < n; i++) o << " " << hexd(e->normal[i]); o << "\n";
+        o << "PQX " << rd; for (int i = 0; i < n; i++) o << " " << hexd(e->delta1[i]); o << "\n";
+        o << "PQR " << rd; for (size_t i = 0; i < mr && i < e->res.size(); i++) o << " " << hexd(e->res[i]); o << "\n";
+        o << "PQB " << rd; for (size_t i = 0; i < mr && i < e->back_eq.size(); i++) o << " " << e->back_eq[i]; o << "\n";
+      }
       e->iterations = it_save;
       e->input_error = save_err;
     for (int i = 0; i < e->count_unknowns; i++) { e->x[i]->moles = sv_m[i]; e->x[i]->f = sv_f[i]; e->delta[i] = sv_d[i]; e->x[i]->delta = sv_xd[i]; e->residual[i] = sv_r[i]; }
@@ -376,6 +420,9 @@ int main() {
       while (std::getline(is, ln)) { if (ln == "#RUNSPLIT") { parts.push_back(cur); cur.clear(); } else { cur += ln; cur += "\n"; } }
       parts.push_back(cur);
     }
+    // reactants left by the previous case of the batch must not meet this case's definitions (an exchanger related to a
+    // mineral of an earlier case makes tidy_min_exchange stop with "Mineral … related to exchanger … not found")
+    ip->RunString("DELETE\n -all\nEND\n");
     int nerr = 0, nr = 0;
     size_t kglob = 0;
     std::ostringstream body;
